@@ -10,6 +10,7 @@ import (
 	"os"
 	"os/exec"
 	"runtime"
+	"runtime/pprof"
 	"sort"
 	"strings"
 	"sync"
@@ -320,6 +321,7 @@ type Summary struct {
 	PerScenario         map[string]*jobResult
 	Capped              bool
 	Found               []foundV
+	Scs                 []*Scenario
 }
 
 // IsWorker reports whether this process was started as a worker.
@@ -327,6 +329,18 @@ func IsWorker() bool { return ev.HasFlag("worker") }
 
 // Explore explores every scenario within its bounds. In a worker process it never returns.
 func Explore(r *ev.Run, scs []*Scenario, cfg Config) *Summary {
+	if only := ev.Arg("only"); only != "" {
+		var f []*Scenario
+		for _, sc := range scs {
+			if strings.Contains(sc.Name, only) {
+				f = append(f, sc)
+			}
+		}
+		scs = f
+		if !IsWorker() {
+			fmt.Printf("--only %q: %d scenarios\n", only, len(scs))
+		}
+	}
 	if IsWorker() {
 		workerLoop(scs)
 		os.Exit(0)
@@ -340,6 +354,14 @@ func Explore(r *ev.Run, scs []*Scenario, cfg Config) *Summary {
 	}
 	if cfg.Workers == 0 {
 		cfg.Workers = runtime.NumCPU()
+	}
+	if v := os.Getenv("VERIF_WORKERS"); v != "" {
+		fmt.Sscan(v, &cfg.Workers)
+	}
+	if pf := os.Getenv("VERIF_PROF"); pf != "" {
+		f, _ := os.Create(pf)
+		pprof.StartCPUProfile(f)
+		defer pprof.StopCPUProfile()
 	}
 	deadline := time.Now().Add(cfg.Wall)
 	// determinism self-check: the default execution of every scenario twice, traces identical
@@ -381,6 +403,14 @@ func Explore(r *ev.Run, scs []*Scenario, cfg Config) *Summary {
 		}
 		queue = append(queue, level...)
 	}
+	if cfg.Workers < 0 {
+		for _, j := range queue {
+			res := runJob(scs, j, false, seen)
+			per[scs[j.Scenario].Name].merge(res)
+			total.merge(res)
+		}
+		queue = nil
+	}
 	if len(queue) > 0 {
 		type wk struct {
 			cmd *exec.Cmd
@@ -403,8 +433,11 @@ func Explore(r *ev.Run, scs []*Scenario, cfg Config) *Summary {
 		var engineErr string
 		for w := 0; w < nw; w++ {
 			args := []string{"--worker", "--tier", r.Tier}
+			if only := ev.Arg("only"); only != "" {
+				args = append(args, "--only", only)
+			}
 			cmd := exec.Command(os.Args[0], args...)
-			cmd.Env = append(os.Environ(), "GOMAXPROCS=2")
+			cmd.Env = append(os.Environ(), "GOMAXPROCS="+workerProcs())
 			cmd.Stderr = os.Stderr
 			stdin, _ := cmd.StdinPipe()
 			stdout, _ := cmd.StdoutPipe()
@@ -450,7 +483,7 @@ func Explore(r *ev.Run, scs []*Scenario, cfg Config) *Summary {
 			ev.EngineError("%s", engineErr)
 		}
 	}
-	sum := &Summary{Execs: total.Execs, Steps: total.Steps, Nodes: total.Nodes + int64(len(scs)), Outcomes: total.Outcomes, PerScenario: per, Capped: total.Capped, Found: total.Found}
+	sum := &Summary{Execs: total.Execs, Steps: total.Steps, Nodes: total.Nodes + int64(len(scs)), Outcomes: total.Outcomes, PerScenario: per, Capped: total.Capped, Found: total.Found, Scs: scs}
 	// report findings (first per scenario+signature)
 	dedup := map[string]bool{}
 	for _, f := range total.Found {
@@ -464,7 +497,8 @@ func Explore(r *ev.Run, scs []*Scenario, cfg Config) *Summary {
 }
 
 // Report writes the standard model-checking coverage keys.
-func Report(r *ev.Run, scs []*Scenario, sum *Summary) {
+func Report(r *ev.Run, _ []*Scenario, sum *Summary) {
+	scs := sum.Scs
 	r.Set("states", sum.Nodes)
 	r.Set("transitions", sum.Steps)
 	r.Set("traces_validated_against_impl", sum.Execs)
@@ -532,4 +566,11 @@ func replay(scs []*Scenario, path string) {
 		}
 	}
 	ev.EngineError("replay: unknown scenario %q", f.Replay.Scenario)
+}
+
+func workerProcs() string {
+	if v := os.Getenv("VERIF_WORKER_PROCS"); v != "" {
+		return v
+	}
+	return "1"
 }
